@@ -1261,6 +1261,12 @@ def gen_bind_tu(rng, nfuncs):
                 expected.append((f"fn_{k} arity {n}: will_capture_parameter({a}) at position {j}", "0 0 ok", snippet))
         calls.append(f'  npass = nfail = 0; expect(fn_{k}, when(no_such_parameter, is_equal_to(1))); fn_{k}({callargs}); clear_mocks(); printf("%d %d -\\n", npass, nfail);')
         expected.append((f"fn_{k} arity {n}: clause naming an absent parameter", "0 1 -", snippet))
+        near = (args[rng.randrange(n)][0] + rng.choice(["x", "_", "0"])) if n and rng.random() < 0.6 else "no_such_parameter"
+        if near in [a for a, _ in args]: near = "no_such_parameter"
+        calls.append(f'  {{ static int v = 5; npass = nfail = 0; expect(fn_{k}, will_set_contents_of_parameter({near}, &v, sizeof(v))); fn_{k}({callargs}); clear_mocks(); printf("%d %d -\\n", npass, nfail > 0); }}')
+        expected.append((f"fn_{k} arity {n}: will_set_contents_of_parameter({near}, ...) naming an absent parameter", "0 1 -", snippet))
+        calls.append(f'  {{ intptr_t got = -1; npass = nfail = 0; expect(fn_{k}, will_capture_parameter({near}, got)); fn_{k}({callargs}); clear_mocks(); printf("%d %d %s\\n", npass, nfail > 0, got == -1 ? "untouched" : "written"); }}')
+        expected.append((f"fn_{k} arity {n}: will_capture_parameter({near}, ...) naming an absent parameter", "0 1 untouched", snippet))
     out.append("int main(void) {\n  TestReporter *reporter = create_reporter();\n  reporter->assert_true = &capture;\n  setup_reporting(reporter);\n  current_test = &dummy;\n  setvbuf(stdout, NULL, _IONBF, 0);")
     out += calls
     out.append("  return 0;\n}")
